@@ -11,6 +11,9 @@ CONSTANTS
   ApplyT = 1
   ApplyF = 1
   ApplyMasks = 0
+  HullVals = {0}
+  HullOff = 0
+  HullDen = 1
 INVARIANT Accept
 INVARIANT Informational
 POSTCONDITION AllAccepted
